@@ -1,4 +1,5 @@
 import SafeNet.Driver.Util
+import SafeNet.Base.Sha3
 import SafeNet.Model.Wire
 /-!
 Line-protocol driver for the wire model (C12); op syntax and the value-tree token syntax are documented in
@@ -189,8 +190,10 @@ def step (_ : Unit) (ws : List String) : Unit × String :=
       let v ← unhex v
       let forged : Chunk := { address := a, value := v }
       let bytes := trySerializeRecord forged.toVal .Chunk
-      let back ← (tryDeserializeRecord bytes).bind (Chunk.ofVal standInHash)
-      some (if back.address == standInHash v && back.value == v then "recomputed" else "kept")
+      -- the content hash is SHA3-256 itself (`Base/Sha3`, what `XorName::from_content` computes): the line shows the
+      -- address of the decoded chunk, which the real decoder must reproduce byte for byte
+      let back ← (tryDeserializeRecord bytes).bind (Chunk.ofVal SafeNet.Sha3.hashBytes)
+      some ((if back.address == SafeNet.Sha3.hashBytes v && back.value == v then "recomputed " else "kept ") ++ hex back.address)
     | _ => none
   ((), r.getD "bad-op")
 
